@@ -129,18 +129,37 @@ def main():
             for sid, out in ex.map(one, ids):
                 print(out.strip(), flush=True)
     elif mode == "run":
-        ids = sys.argv[2:] or sorted(os.listdir(f"{VERIF}/seeded"))
-        for sid in ids:
+        # tools/seeded.py run [--par N] [<id>[+Cxx...] ...]: re-run the registered checks (plus
+        # the ones appended with +) against kept changes, N changes side by side
+        import concurrent.futures
+        args = sys.argv[2:]
+        par = 1
+        if args[:1] == ["--par"]:
+            par, args = int(args[1]), args[2:]
+        specs = args or sorted(os.listdir(f"{VERIF}/seeded"))
+        os.environ.setdefault("VERIF_JOBS", str(max(2, 16 // par)))
+        def one(spec):
+            sid, *extra = spec.split("+")
             d = f"{VERIF}/seeded/{sid}"
             if not os.path.exists(f"{d}/meta.json"):
-                continue
+                return f"{sid}: no meta.json"
             meta = json.load(open(f"{d}/meta.json"))
             checks = [x.split()[1] for x in meta["ran"]]
-            res = run_checks(f"{d}/patch.diff", checks)
+            checks += [c for c in extra if c not in checks]
+            # each change needs its own scratch names: run in a child so that getpid() differs
+            r = subprocess.run([sys.executable, "-c", f"import sys, json; sys.argv=['seeded.py','noop']; exec(open({sys.argv[0]!r}).read().replace('\\nmain()','')); print(json.dumps(run_checks({d + '/patch.diff'!r}, {checks!r})))"],
+                               capture_output=True, text=True)
+            try:
+                res = json.loads(r.stdout.strip().splitlines()[-1])
+            except Exception:
+                return f"{sid}: run failed: {r.stdout[-300:]} {r.stderr[-300:]}"
+            meta["ran"] = [f"./check {c} quick (against a scratch worktree of /repo with the patch applied)" for c in checks]
             meta["results"] = res
             meta["caught_by"] = [c for c in checks if res.get(c, {}).get("caught")]
             json.dump(meta, open(f"{d}/meta.json", "w"), indent=1)
-            print(sid, "caught by", meta["caught_by"] or "NOTHING")
-
+            return f"{sid} caught by {meta['caught_by'] or 'NOTHING'}"
+        with concurrent.futures.ThreadPoolExecutor(par) as ex:
+            for out in ex.map(one, specs):
+                print(out, flush=True)
 
 main()
